@@ -9,6 +9,8 @@ func Scenarios(property string, thorough bool) []driver.Scenario {
 		return c20Scenarios(thorough)
 	case "C05":
 		return c05Scenarios(thorough)
+	case "C06":
+		return c06Scenarios(thorough)
 	case "C11":
 		return c11Scenarios(thorough)
 	case "C16":
